@@ -37,8 +37,10 @@ def run(args):
     distinct_all = set()
     samples_all = []
     sets = option_sets(args.tier)
-    cases = typegen.cases(args.tier, fams)
-    if args.tier == 'quick':
+    # thorough: every pair of options and all eight together, on the quick shape corpus (plus S1 DEFAULT roles and S4); the
+    # thorough shape corpus itself is swept under no option by C01/C02 thorough
+    cases = typegen.cases('quick', fams)
+    if 'S1' not in fams:
         # quick: of family S1 only the DEFAULT roles (the generated default compare/set functions depend on -fwide-types
         # and friends); thorough takes all of S1
         cases += [c for c in typegen.cases('quick', ['S1']) if '/default' in c.label]
@@ -64,6 +66,6 @@ def run(args):
                rule='corpus families %s (quick: plus the DEFAULT roles of S1, with DEFAULT values at the content-octet boundaries) compiled under %d option sets (none, every single option of {-fwide-types,-fcompound-names,-findirect-choice,-fno-include-deps,'
                     '-fincludes-quoted,-fno-constraints,-no-gen-PER,-no-gen-OER}, %s); under each set every (type,value) gets the full C01 round-trip/transcoding oracle and '
                     'the C02 byte-exact comparison against the same reference DER/UPER/OER bytes (syntaxes dropped by an option are skipped for that set)' % (
-                        ','.join(fams), len(sets), 'selected pairs and a 5-option set' if args.tier == 'quick' else 'all pairs and all eight together'),
+                        ','.join(fams), len(sets), 'selected pairs and a 5-option set' if args.tier == 'quick' else 'all pairs and all eight together, on the quick shape corpus'),
                samples=samples_all, option_sets=allstats, trusted_base=['reference encoders ref/*.py', 'ASan/UBSan'])
     return chk.finish(cov)
